@@ -4,6 +4,11 @@
      D m <name> <r> <c>        declare dense matrix container
      S <s-expression>          a statement, constructors exactly as in C01Model.v, e.g.
                                (SAssignV false OpAdd (VRange (VVar 0 4) 0 2) (VScale 2 (VVar 1 2)))
+     O <s-expression>          one application of the rewrite table C01Opt.v (fx = true, fuel 64) in the current store:
+                               (opt_vrange e a b) (opt_mtrans m) (opt_mrow m i) (opt_mdiag m) (opt_mrange m a b c d)
+                               (opt_mrows m a b) (opt_vscale c e) (opt_mscale c m) (opt_mvprod m v) (opt_mmprod m1 m2)
+                               (opt_vunary e g) (opt_munary m g) (opt_fold_set colmajor k g m);
+                               output line "O <resulting term as s-expression>"
    Output: one line per S line:  "<k> ok|REJECT r=<reduction value or -> | v0=1,2,3 m1=2x2:1,2,3,4 ..."
    REJECT = stmt_ok is false (ill-shaped / not an lvalue / noalias with the target on the right):
    the store is left unchanged. *)
@@ -125,6 +130,71 @@ let stmt = function
   | L [A "SReduce"; r] -> SReduce (sexp r)
   | _ -> failwith "stmt"
 
+(* ---- printer (inverse of the parser above; same spelling as tools/c01_gen.py: sx) *)
+let pn x = string_of_int (int_of_nat x)
+let pb x = if x then "true" else "false"
+let rec p_ufun = function
+  | FId -> "FId" | FAbs -> "FAbs" | FSqr -> "FSqr"
+  | FMulScalar c -> "(FMulScalar " ^ string_of_z c ^ ")"
+  | FCompose (f, g) -> "(FCompose " ^ p_ufun f ^ " " ^ p_ufun g ^ ")"
+let rec p_bfun = function
+  | BMul -> "BMul" | BMin -> "BMin" | BMax -> "BMax"
+  | BCompose (f, g) -> "(BCompose " ^ p_bfun f ^ " " ^ p_ufun g ^ ")"
+let p_fkind = function KSum -> "KSum" | KMax -> "KMax" | KMin -> "KMin"
+let cat l = "(" ^ String.concat " " l ^ ")"
+let rec p_vexp = function
+  | VVar (x, k) -> cat ["VVar"; pn x; pn k]
+  | VRange (e, a, c) -> cat ["VRange"; p_vexp e; pn a; pn c]
+  | VRow (m, i) -> cat ["VRow"; p_mexp m; pn i]
+  | VCol (m, j) -> cat ["VCol"; p_mexp m; pn j]
+  | VDiag m -> cat ["VDiag"; p_mexp m]
+  | VConst (k, c) -> cat ["VConst"; pn k; string_of_z c]
+  | VUnit (k, i, c) -> cat ["VUnit"; pn k; string_of_z i; string_of_z c]
+  | VScale (c, e) -> cat ["VScale"; string_of_z c; p_vexp e]
+  | VAdd (e1, e2) -> cat ["VAdd"; p_vexp e1; p_vexp e2]
+  | VMinus (e1, e2) -> cat ["VMinus"; p_vexp e1; p_vexp e2]
+  | VUn (f, e) -> cat ["VUn"; p_ufun f; p_vexp e]
+  | VBin (g, e1, e2) -> cat ["VBin"; p_bfun g; p_vexp e1; p_vexp e2]
+  | VMv (al, m, e) -> cat ["VMv"; string_of_z al; p_mexp m; p_vexp e]
+  | VFold (k, g, m) -> cat ["VFold"; p_fkind k; p_ufun g; p_mexp m]
+  | VConcat (e1, e2) -> cat ["VConcat"; p_vexp e1; p_vexp e2]
+and p_mexp = function
+  | MVar (x, r, c) -> cat ["MVar"; pn x; pn r; pn c]
+  | MTrans m -> cat ["MTrans"; p_mexp m]
+  | MRange (m, a, b', c, d) -> cat ["MRange"; p_mexp m; pn a; pn b'; pn c; pn d]
+  | MRows (m, a, c) -> cat ["MRows"; p_mexp m; pn a; pn c]
+  | MCols (m, a, c) -> cat ["MCols"; p_mexp m; pn a; pn c]
+  | MConst (r, c, t) -> cat ["MConst"; pn r; pn c; string_of_z t]
+  | MDiagM e -> cat ["MDiagM"; p_vexp e]
+  | MScale (c, m) -> cat ["MScale"; string_of_z c; p_mexp m]
+  | MAdd (m1, m2) -> cat ["MAdd"; p_mexp m1; p_mexp m2]
+  | MMinus (m1, m2) -> cat ["MMinus"; p_mexp m1; p_mexp m2]
+  | MUn (f, m) -> cat ["MUn"; p_ufun f; p_mexp m]
+  | MBin (g, m1, m2) -> cat ["MBin"; p_bfun g; p_mexp m1; p_mexp m2]
+  | MOuter (e1, e2) -> cat ["MOuter"; p_vexp e1; p_vexp e2]
+  | MProd (al, m1, m2) -> cat ["MProd"; string_of_z al; p_mexp m1; p_mexp m2]
+  | MRepeat (cm, e, k) -> cat ["MRepeat"; pb cm; p_vexp e; pn k]
+  | MConcat (rt, m1, m2) -> cat ["MConcat"; pb rt; p_mexp m1; p_mexp m2]
+  | MTri (up, un, m) -> cat ["MTri"; pb up; pb un; p_mexp m]
+
+(* one application of the rewrite table as repaired (fx = true) in store s *)
+let fuel = nat_of_int 64
+let optimize s = function
+  | L [A "opt_vrange"; e; a; c] -> p_vexp (opt_vrange true s fuel (vexp e) (n a) (n c))
+  | L [A "opt_mtrans"; m] -> p_mexp (opt_mtrans true s fuel (mexp m))
+  | L [A "opt_mrow"; m; i] -> p_vexp (opt_mrow true s fuel (mexp m) (n i))
+  | L [A "opt_mdiag"; m] -> p_vexp (opt_mdiag true s fuel (mexp m))
+  | L [A "opt_mrange"; m; a; b'; c; d] -> p_mexp (opt_mrange true s fuel (mexp m) (n a) (n b') (n c) (n d))
+  | L [A "opt_mrows"; m; a; c] -> p_mexp (opt_mrows true s fuel (mexp m) (n a) (n c))
+  | L [A "opt_vscale"; c; e] -> p_vexp (opt_vscale true s fuel (z c) (vexp e))
+  | L [A "opt_mscale"; c; m] -> p_mexp (opt_mscale true s fuel (z c) (mexp m))
+  | L [A "opt_mvprod"; m; v] -> p_vexp (opt_mvprod true s fuel (mexp m) (vexp v))
+  | L [A "opt_mmprod"; m1; m2] -> p_mexp (opt_mmprod true s fuel (mexp m1) (mexp m2))
+  | L [A "opt_vunary"; e; g] -> p_vexp (opt_vunary (vexp e) (ufun g))
+  | L [A "opt_munary"; m; g] -> p_mexp (opt_munary (mexp m) (ufun g))
+  | L [A "opt_fold_set"; cm; k; g; m] -> p_vexp (opt_fold_set true s fuel (b cm) (fkind k) (ufun g) (mexp m))
+  | _ -> failwith "optimize"
+
 type decl = DV of int * int | DM of int * int * int
 
 (* re-tabulate the store on the declared containers (keeps closure chains short; identity on every
@@ -181,6 +251,9 @@ let () =
          | ["Q"; "SSetV"; x; i; c] -> pending := SSetV (nat_of_int (int_of_string x), nat_of_int (int_of_string i), z_of_int (int_of_string c)) :: !pending
          | ["Q"; "SSetM"; x; i; j; c] -> pending := SSetM (nat_of_int (int_of_string x), nat_of_int (int_of_string i), nat_of_int (int_of_string j), z_of_int (int_of_string c)) :: !pending
          | _ -> failwith ("bad quiet statement " ^ l))
+      end else if String.length l > 2 && l.[0] = 'O' then begin
+        flush_pending ();
+        Printf.printf "O %s\n" (optimize !st (parse (tokenize (String.sub l 1 (String.length l - 1)))))
       end else if String.length l > 2 && l.[0] = 'S' then begin
         flush_pending ();
         let s = stmt (parse (tokenize (String.sub l 1 (String.length l - 1)))) in
